@@ -695,8 +695,8 @@ func (fg *FuncGen) appendOp(v *ssa.Call, c *ssa.CallCommon) {
 	ref := fg.alloc(v.Type())
 	sym := fg.havocFam(fg.st, f)
 	fg.emit("(assert (forall ((r Int)) (! (=> (not (= r %s)) (= (select %s r) (select %s r))) :pattern ((select %s r)))))", ref, sym, before, sym)
-	fg.emit("(assert (forall ((i Int)) (! (=> (and (<= 0 i) (< i (slen %s))) (= (select (select %s %s) i) (select (select %s (sref %s)) (+ (soff %s) i)))) :pattern ((select (select %s %s) i)))))",
-		s.S, sym, ref, before, s.S, s.S, sym, ref)
+	r := fg.declare(v)
+	fg.emit("(assert (and (= (sref %s) %s) (= (soff %s) 0) (= (slen %s) (+ (slen %s) (slen %s))) (>= (scap %s) (slen %s))))", r.S, ref, r.S, r.S, s.S, t.S, r.S, r.S)
 	// the appended part: expand when the length is a literal
 	n := -1
 	if sl, ok := c.Args[1].(*ssa.Slice); ok {
@@ -706,16 +706,28 @@ func (fg *FuncGen) appendOp(v *ssa.Call, c *ssa.CallCommon) {
 			}
 		}
 	}
-	if n >= 0 && n <= 8 {
-		for i := 0; i < n; i++ {
-			fg.emit("(assert (= (select (select %s %s) (+ (slen %s) %d)) (select (select %s (sref %s)) (+ (soff %s) %d))))", sym, ref, s.S, i, before, t.S, t.S, i)
+	if es == "Val" {
+		fg.emit("(assert (forall ((i Int)) (! (=> (and (<= 0 i) (< i (slen %s))) (= (gat %s %s i) (gat %s %s i))) :pattern ((gat %s %s i)))))", s.S, sym, r.S, before, s.S, sym, r.S)
+		if n >= 0 && n <= 8 {
+			for i := 0; i < n; i++ {
+				fg.emit("(assert (= (gat %s %s (+ (slen %s) %d)) (gat %s %s %d)))", sym, r.S, s.S, i, before, t.S, i)
+			}
+		} else {
+			fg.emit("(assert (forall ((i Int)) (! (=> (and (<= 0 i) (< i (slen %s))) (= (gat %s %s (+ (slen %s) i)) (gat %s %s i))) :pattern ((gat %s %s i)))))", t.S, sym, r.S, s.S, before, t.S, before, t.S)
+			fg.emit("(assert (=> (< 0 (slen %s)) (= (gat %s %s (slen %s)) (gat %s %s 0))))", t.S, sym, r.S, s.S, before, t.S)
 		}
 	} else {
-		fg.emit("(assert (forall ((i Int)) (! (=> (and (<= 0 i) (< i (slen %s))) (= (select (select %s %s) (+ (slen %s) i)) (select (select %s (sref %s)) (+ (soff %s) i)))) :pattern ((select (select %s (sref %s)) (+ (soff %s) i))))))",
-			t.S, sym, ref, s.S, before, t.S, t.S, before, t.S, t.S)
+		fg.emit("(assert (forall ((i Int)) (! (=> (and (<= 0 i) (< i (slen %s))) (= (select (select %s %s) i) (select (select %s (sref %s)) (+ (soff %s) i)))) :pattern ((select (select %s %s) i)))))",
+			s.S, sym, ref, before, s.S, s.S, sym, ref)
+		if n >= 0 && n <= 8 {
+			for i := 0; i < n; i++ {
+				fg.emit("(assert (= (select (select %s %s) (+ (slen %s) %d)) (select (select %s (sref %s)) (+ (soff %s) %d))))", sym, ref, s.S, i, before, t.S, t.S, i)
+			}
+		} else {
+			fg.emit("(assert (forall ((i Int)) (! (=> (and (<= 0 i) (< i (slen %s))) (= (select (select %s %s) (+ (slen %s) i)) (select (select %s (sref %s)) (+ (soff %s) i)))) :pattern ((select (select %s (sref %s)) (+ (soff %s) i))))))",
+				t.S, sym, ref, s.S, before, t.S, t.S, before, t.S, t.S)
+		}
 	}
-	r := fg.declare(v)
-	fg.emit("(assert (and (= (sref %s) %s) (= (soff %s) 0) (= (slen %s) (+ (slen %s) (slen %s))) (>= (scap %s) (slen %s))))", r.S, ref, r.S, r.S, s.S, t.S, r.S, r.S)
 	fg.obl("safe.make", "", v.Pos(), safetyTags, fmt.Sprintf("(<= (+ (slen %s) (slen %s)) MaxInt)", s.S, t.S), "append: length in range")
 }
 
